@@ -53,6 +53,7 @@ type C05Case struct {
 
 	viaForm bool // harness/c05transport.go
 	noise   bool // harness/c05transport.go: the query also carries a key of no parameter
+	written bool // harness/c05transport.go: the parameter definition is written out and read back before use
 }
 
 type C05Obs struct {
@@ -260,6 +261,14 @@ func goTypes(v any) string {
 func runC05(c *C05Case) C05Obs {
 	var o C05Obs
 	p := c.param()
+	if c.written {
+		if b, err := p.MarshalJSON(); err == nil {
+			p2 := &openapi3.Parameter{}
+			if p2.UnmarshalJSON(b) == nil {
+				p = p2
+			}
+		}
+	}
 	op := openapi3.NewOperation()
 	op.Parameters = openapi3.Parameters{&openapi3.ParameterRef{Value: p}}
 	item := &openapi3.PathItem{Get: op}
